@@ -1454,7 +1454,8 @@ def case_assorters(rep):
             if not math.isclose(got, exp) or not (0 <= got <= asn.assorter.upper_bound + 1e-15):
                 rep.fail("super-majority assorter = w/(2f) for a valid ballot else 1/2, in [0, 1/(2f)]", {"card": d, "share": f}, got=got, expected=exp)
     # collections: mean > 1/2 iff the winners really won; margin from tally = 2 mean - 1
-    simple = [{"con": {"A": 1}}, {"con": {"B": 1}}, {"con": {"C": 2}}, {"con": {"A": True, "B": "x"}}, {"con": {}}, {"other": {}}, {"con": {"A": 0, "C": 1}}]
+    simple = [{"con": {"A": 1}}, {"con": {"B": 1}}, {"con": {"C": 2}}, {"con": {"A": True, "B": "x"}}, {"con": {}}, {"other": {}}, {"con": {"A": 0, "C": 1}},
+              {"con": {"write-in": 1}}]
     nmax = 4 if thorough(rep) else 3
     for n in range(1, nmax + 1):
         for coll in itertools.combinations_with_replacement(range(len(simple)), n):
